@@ -944,6 +944,7 @@ fn c11_monitor(op: &str, own: u16, trace: &[Message<'static>], script: &[Reply],
         }
     }
     let kind = &op[..3];
+    let kind = if kind == "SNP" || kind == "SNW" { "SND" } else { kind };
     if kind == "CFG" || kind == "CIN" || kind == "SND" {
         let (recv_op, success, failure) = if kind == "SND" {
             (Operation::ReceivePixels, State::PixelsReceived, State::PixelsFailed)
@@ -1255,9 +1256,10 @@ fn gen_c10(ctx: &mut Ctx) {
     for _ in 0..n {
         let own = *rng.pick(&[0u16, 3, 0x7F, 0x80, 0xFF, 0x100, 0xFFFF]);
         let alpha = reply_alphabet(own, own ^ 1);
-        let op = match rng.below(6) {
+        let op = match rng.below(7) {
             0 => format!("CFG.{}.{}", own, rng.below(11)),
             1 => format!("CIN.{}.{}", own, rng.below(11)),
+            6 => format!("SNP.{}.{}+{}", own, small_page(3, 8, 8, &mut rng), small_page(4, 20, 8, &mut rng)),
             2 => format!("SND.{}.{}", own, small_page(rng.byte(), 8, 8, &mut rng)),
             3 => format!("SHW.{}.200", own),
             4 => format!("LNX.{}.200", own),
@@ -1293,8 +1295,15 @@ fn gen_c10(ctx: &mut Ctx) {
         ctx.monitor(!after_err, "C11-fail-stop", &line, "");
     }
     // long polling: many in-progress reports in one show / load-next call (before and after the request), then settle
-    for (k, n) in [49usize, 50, 51, 52, 100, 200, 301].into_iter().enumerate() {
+    let mut poll_counts = vec![49usize, 50, 51, 52, 100, 200, 301, 1000, 10_001, 25_000];
+    if thorough {
+        poll_counts.extend_from_slice(&[65_536, 70_000]);
+    }
+    for (k, n) in poll_counts.into_iter().enumerate() {
         for op in ["SHW", "LNX"] {
+            if n > 1000 && (op == "LNX") != (k % 2 == 0) {
+                continue;
+            }
             let own = 3u16;
             let (busy, trigger, target, req) = if op == "SHW" { ("PSP", "PLD", "PSH", "SLP") } else { ("PLP", "PSH", "PLD", "LNP") };
             let mut script: Vec<String> = vec![];
@@ -1327,6 +1336,24 @@ fn gen_c10(ctx: &mut Ctx) {
             let line = format!("CTD {} {} {} {}", idx, ms, op, script);
             let res = ctx.case(line.clone(), true, "slow-bus");
             ctx.monitor(res.ends_with("=> DONE") || res.ends_with("=> DONE.M"), "C11-invariants", &line, &res);
+        }
+    }
+    // a bus that is merely slow (a step takes 0.6 s), with an in-progress report where the transfer's result is asked for:
+    // that report is not the 'received' state, whatever time it is
+    if std::env::var("FDX_SKIP_SLOW").is_err() {
+        for (idx, op, script) in [
+            (1usize, "CFG.3.2", "RS.3.UNC AO.3.RCF N N RS.3.CIP RS.3.CRX RS.3.CRX"),
+            (2, "SND.3.8.8.01100000FFFFFFFFFFFFFFFFFFFFFFFF", "AO.3.RPX N N RS.3.PIP RS.3.PRX N RS.3.PLD"),
+            (0, "SND.3.8.8.01100000FFFFFFFFFFFFFFFFFFFFFFFF", "AO.3.RPX N N RS.3.PFL AO.3.RPX N N RS.3.PIP RS.3.PRX N RS.3.PLD"),
+            (3, "SHW.3.64", "RS.3.PLD AO.3.SLP RS.3.PSP RS.3.PSH"),
+        ] {
+            let line = format!("CTD {} 600 {} {}", idx, op, script);
+            let res = ctx.case(line.clone(), true, "slow-bus");
+            let sc: Vec<Reply> = script.split(' ').map(reply_of_str).collect();
+            let (tr, oc) = res.split_once(" => ").unwrap_or(("", "?"));
+            let trace: Vec<Message<'static>> = tr.split(' ').filter(|x| !x.is_empty()).map(msg_of_str).collect();
+            let v = c11_monitor(op, 3, &trace, &sc, oc);
+            ctx.monitor(v.is_none(), "C11-invariants", &line, v.as_deref().unwrap_or(""));
         }
     }
     gen_cts(ctx, if thorough { 6000 } else { 600 }, 1011);
@@ -1543,18 +1570,45 @@ fn gen_c09(ctx: &mut Ctx) {
             pages[last] = format!("{}.{}.{}", parts[0], parts[1], hex_of_bytes(&bytes));
             items[last] = bytes;
         }
+        if k % 8 == 3 || k % 8 == 7 {
+            // pages that end in (or consist of) what padding looks like: the last one, two, three chunks, all but the
+            // first chunk, everything 0xFF -- on pages of the controller's own size and on larger ones (112 x 16 = 240
+            // bytes, 40 x 12 = 96 bytes); every byte of every page is sent all the same
+            if pages.is_empty() || k % 16 == 7 {
+                pages = vec![small_page(1, 112, 16, &mut rng), small_page(2, 40, 12, &mut rng), small_page(3, 90, 7, &mut rng)];
+            }
+            for (pi, pg) in pages.iter_mut().enumerate() {
+                let parts: Vec<String> = pg.split('.').map(|x| x.to_string()).collect();
+                let mut bytes = bytes_of_hex(&parts[2]);
+                let l = bytes.len();
+                let m = [16usize, 32, 48, l.saturating_sub(16), l][(k / 8 + pi) % 5].min(l);
+                for b in bytes[l - m..].iter_mut() {
+                    *b = 0xFF;
+                }
+                *pg = format!("{}.{}.{}", parts[0], parts[1], hex_of_bytes(&bytes));
+            }
+            items = pages.iter().map(|p| bytes_of_hex(p.split('.').nth(2).unwrap())).collect();
+        }
+        // the same list from an iterator that looks at the shared bus whenever a page is taken from it (SNP), and -- once
+        // per run, it costs 2.3 s per page after the first -- from one that takes its time over every page (SNW)
+        let slow_iter = k == 13 && std::env::var("FDX_SKIP_SLOW").is_err();
+        if slow_iter {
+            pages = vec![small_page(1, 8, 8, &mut rng), small_page(2, 90, 7, &mut rng)];
+            items = pages.iter().map(|p| bytes_of_hex(p.split('.').nth(2).unwrap())).collect();
+        }
         let op = if is_cfg {
             items = vec![SIGN_TYPES[t].to_bytes().to_vec()];
             format!("CFG.{}.{}", own, t)
         } else {
-            format!("SND.{}.{}", own, if pages.is_empty() { "-".to_string() } else { pages.join("+") })
+            format!("{}.{}.{}", if slow_iter { "SNW" } else if k % 8 == 5 { "SNP" } else { "SND" }, own, if pages.is_empty() { "-".to_string() } else { pages.join("+") })
         };
+        let fails_override = if slow_iter { Some(0) } else { None };
         if crate::eval::snd_unconstructible(&op) {
             ctx.case(format!("CT {} N", op), true, "unconstructible-page");
             continue;
         }
         // retry pattern: how many failure reports before success (0..3), plus an occasional deviation
-        let fails = if k == 14 { 0 } else { rng.below(4) };
+        let fails = if k == 14 { 0 } else { fails_override.unwrap_or(rng.below(4)) };
         // one interactive run: the bus decides each cooperative reply when it is asked for it
         let script: Vec<String> = {
             let mut r2 = Rng::new(rng.next(), 909);
@@ -1624,7 +1678,7 @@ fn gen_c09(ctx: &mut Ctx) {
         // the acknowledgement of the receive request must be this sign's ack of THAT operation: replace it
         // by an ack of another operation, an ack from another address, or a state report, and keep the rest
         // of the cooperative script (a correct controller stops there and sends no data)
-        if script.len() < 400 {
+        if script.len() < 400 && !slow_iter {
             let others: Vec<&str> = ["RCF", "RPX", "SLP", "LNP", "SRS", "FRS"].iter().copied().filter(|o| *o != str_op(recv_op(is_cfg))).collect();
             let mut variants: Vec<String> = others.iter().map(|o| format!("AO.{}.{}", own, o)).collect();
             variants.push(format!("AO.{}.{}", own ^ 1, str_op(recv_op(is_cfg))));
